@@ -582,3 +582,157 @@ def drive_c13(ctx):
             flags = (1 << 12) | (1 << 2) | (rng.getrandbits(14) << 2)
             rec.add('Unmarshal', P, nt=True, sigx='header', wf=True, **actions.unmarshal(
                 wiregen.envelope(2, 1, wiregen.header_payload(rng, True, flags=flags))))
+
+
+# ---------------------------------------------------------------------------
+# C08 / C09  arbitrary and corrupted input: termination, bounded work, exception type
+# ---------------------------------------------------------------------------
+LEN_VALUES = [0, 1, 0xFFFF, 0x10000, 2 ** 31 - 1, 2 ** 31, 2 ** 32 - 1]
+
+
+def reenvelope(b, payload):
+    import struct
+    return struct.pack('>BHI', b[0], (b[1] << 8) | b[2], len(payload)) + payload + b'\xce'
+
+
+def nested(rng, depth, kind):
+    """field table / array nested `depth` levels (well-formed)"""
+    import struct
+    v = b'V'
+    for i in range(depth):
+        k = kind if kind in 'AF' else rng.choice('AF')
+        if k == 'A':
+            v = b'A' + struct.pack('>I', len(v)) + v
+        else:
+            body = b'\x01k' + v
+            v = b'F' + struct.pack('>I', len(body)) + body
+    return v
+
+
+def fuzz_inputs(ctx, scale):
+    """yields (label, bytes)"""
+    import struct
+    import wiregen
+    rng = ctx.rng
+    frames = corpus_frames(ctx, 20 * scale)
+    # 1. single-byte corruption
+    reps = [0, 1, 0x41, 0x46, 0x53, 0x80, 0xCE, 0xFF]
+    for b in frames:
+        step = 1 if len(b) < 80 else max(1, len(b) // 60)
+        for pos in range(0, len(b), step):
+            vals = reps if ctx.quick else reps + [rng.getrandbits(8) for _ in range(8)]
+            for x in (vals if len(b) < 200 else vals[:3]):
+                if b[pos] != x:
+                    yield 'byte', b[:pos] + bytes([x]) + b[pos + 1:]
+    # 2. embedded length fields / flag words overwritten (payload kept inside a consistent envelope)
+    for b in frames:
+        if b[:4] == b'AMQP' or len(b) < 12:
+            continue
+        payload = b[7:-1]
+        for _ in range(6 * scale):
+            pos = rng.randrange(0, max(1, len(payload) - 3))
+            v = rng.choice(LEN_VALUES + [len(payload) - pos - 4, len(payload) - pos - 3, len(payload) - pos - 5, len(payload)])
+            p2 = payload[:pos] + struct.pack('>I', v & 0xFFFFFFFF) + payload[pos + 4:]
+            yield 'len32', reenvelope(b, p2)
+            p3 = payload[:pos] + struct.pack('>H', rng.choice([1, 3, 0xFFFF, 0x8001, 0x0003, rng.getrandbits(16)])) + payload[pos + 2:]
+            yield 'word16', reenvelope(b, p3)
+    # 3. truncated payload inside a valid envelope; truncated frames
+    for b in frames:
+        if b[:4] == b'AMQP':
+            continue
+        payload = b[7:-1]
+        for k in range(0, min(len(payload), 40)):
+            yield 'trunc-payload', reenvelope(b, payload[:k])
+        for _ in range(3):
+            yield 'trunc-frame', b[:rng.randrange(0, len(b))]
+    # 4. content headers with every kind of flag-word abuse
+    for _ in range(40 * scale):
+        fl = rng.choice([1, 3, 0xFFFF, 0x8001, 0xFFFD, rng.getrandbits(16) | 1])
+        words = struct.pack('>H', fl) + b''.join(struct.pack('>H', rng.choice([0, 1, 0xFFFF, 2])) for _ in range(rng.randint(0, 3)))
+        tail = bytes(rng.getrandbits(8) for _ in range(rng.randint(0, 30)))
+        yield 'flagwords', wiregen.envelope(2, 1, struct.pack('>HHQ', 60, 0, 5) + words + tail)
+    for n in range(0, 15):
+        yield 'short-header', wiregen.envelope(2, 1, bytes(rng.getrandbits(8) for _ in range(n))) if n else wiregen.envelope(2, 1, b'')
+    # 5. method payloads of 0..3 bytes, unknown class/method ids, unknown frame types
+    for n in range(0, 4):
+        yield 'short-method', wiregen.envelope(1, 1, bytes(rng.getrandbits(8) for _ in range(n)))
+    for _ in range(20 * scale):
+        yield 'unknown-method', wiregen.envelope(1, 1, struct.pack('>HH', rng.choice([0, 10, 11, 60, 61, 65535]), rng.choice([0, 1, 12, 99, 65535])) + b'\x00' * 8)
+    for t in range(256):
+        if ctx.quick and t % 4 and t > 16:
+            continue
+        yield 'frame-type', wiregen.envelope(t, 1, b'\x00\x3c\x00\x50\x00\x00\x00\x00\x00\x00\x00\x01\x00')
+    # 6. grammar-directed faults inside tables: unknown tags, bad UTF-8 keys/strings, huge timestamps, inflated lengths
+    def table_frame(body):
+        tbl = struct.pack('>I', len(body)) + body
+        payload = struct.pack('>HH', 10, 11) + tbl + wiregen.short_str('PLAIN') + wiregen.long_str(b'') + wiregen.short_str('en_US')
+        return wiregen.envelope(1, 0, payload)
+    for tag in range(256):
+        if bytes([tag]) in wiregen.TAGS:
+            continue
+        if ctx.quick and tag % 3:
+            continue
+        yield 'unknown-tag', table_frame(b'\x01k' + bytes([tag]) + b'\x00\x00\x00\x00')
+    for bad in [b'\xff', b'\xc3', b'\xe2\x82', b'\xed\xa0\x80', b'\xc0\x80', b'\xf4\x90\x80\x80']:
+        yield 'bad-utf8-key', table_frame(bytes([len(bad)]) + bad + b'V')
+        yield 'bad-utf8-shortstr', wiregen.envelope(1, 1, struct.pack('>HH', 60, 21) + bytes([len(bad)]) + bad)
+        yield 'bad-utf8-prop', wiregen.envelope(2, 1, struct.pack('>HHQH', 60, 0, 0, 0x8000) + bytes([len(bad)]) + bad)
+    for v in wiregen.TS_REFUSED:
+        yield 'huge-timestamp', table_frame(b'\x01k' + b'T' + struct.pack('>Q', v))
+        yield 'huge-timestamp-prop', wiregen.envelope(2, 1, struct.pack('>HHQH', 60, 0, 0, 0x0040) + struct.pack('>Q', v))
+    for tag in b'AFSx':
+        for ln in LEN_VALUES + [2, 5, 6, 7, 100]:
+            yield 'inflated-%s' % chr(tag), table_frame(b'\x01k' + bytes([tag]) + struct.pack('>I', ln) + b'\x01a')
+    for ln in LEN_VALUES + [1, 2, 3, 50]:
+        yield 'inflated-table', wiregen.envelope(1, 0, struct.pack('>HH', 10, 11) + struct.pack('>I', ln) + b'\x01kV')
+        yield 'inflated-longstr', wiregen.envelope(1, 0, struct.pack('>HH', 10, 20) + struct.pack('>I', ln) + b'ab')
+    for tag in b'tbBsuIilLfdDT':
+        for cut in range(0, 9):
+            yield 'short-value', table_frame(b'\x01k' + bytes([tag]) + b'\x01' * cut)
+    for key_len in [1, 2, 200, 255]:
+        yield 'key-overrun', table_frame(bytes([key_len]) + b'k')
+    # 7. deep nesting (<= 64)
+    for d in [1, 8, 32, 60, 64]:
+        for kind in 'AFx':
+            yield 'nested-%d' % d, table_frame(b'\x01k' + nested(rng, d, kind))
+    # 8. random byte strings, random payloads in valid envelopes
+    for _ in range(150 * scale):
+        n = rng.choice([0, 1, 6, 7, 8, 9, 12, rng.randint(0, 64), rng.randint(0, 400)])
+        yield 'random', bytes(rng.getrandbits(8) for _ in range(n))
+    for _ in range(150 * scale):
+        t = rng.choice([1, 2, 3, 8])
+        p = bytes(rng.getrandbits(8) for _ in range(rng.choice([0, 1, 4, 12, 14, rng.randint(0, 100)])))
+        if t == 1 and rng.random() < 0.7:
+            sm = rng.choice(framegen.METHODS)
+            p = struct.pack('>HH', sm[1], sm[2]) + p
+        if t == 2 and rng.random() < 0.7:
+            p = struct.pack('>HHQ', 60, 0, rng.getrandbits(64)) + p
+        yield 'random-payload', wiregen.envelope(t, rng.randint(0, 65535), p)
+
+
+def fuzz(ctx, props, scale):
+    rec = ctx.rec
+    i = 0
+    for label, b in fuzz_inputs(ctx, scale):
+        i += 1
+        ev = actions.unmarshal(b, budget=True, memory=(i % 10 == 0))
+        rec.add('Unmarshal', props, nt=True, label=label, **ev)
+
+
+@driver('C08')
+def drive_c08(ctx):
+    fuzz(ctx, ['C08'], 1 if ctx.quick else 8)
+    # value decoders called directly are part of the public API too
+    import struct
+    rng = ctx.rng
+    for ln in LEN_VALUES + [2, 9, 100]:
+        for fn, pos in (('array', 'array'), ('table', 'table')):
+            b = struct.pack('>I', ln) + rng.choice([b'', b'V', b'\x01kV', b'A\x00\x00\x00\x09V'])
+            ev = actions.decode_value(b, pos)
+            ev['bound'] = 16 * len(b) + 256
+            ctx.rec.add('DecodeValue', ['C08'], nt=True, sigx='direct-' + fn, **ev)
+
+
+@driver('C09')
+def drive_c09(ctx):
+    fuzz(ctx, ['C09'], 1 if ctx.quick else 8)
